@@ -3,7 +3,9 @@ import SoundeventModel.Relational
 namespace SE.Proofs.Lemmas.Relational
 open SE SE.Relational
 
-theorem mem_toSet {x : Id} {xs : List Id} : x ∈ toSet xs ↔ x ∈ xs := by
+variable {α : Type} [DecidableEq α]
+
+theorem mem_toSet {x : α} {xs : List α} : x ∈ toSet xs ↔ x ∈ xs := by
   induction xs with
   | nil => simp [toSet]
   | cons y ys ih =>
@@ -14,7 +16,7 @@ theorem mem_toSet {x : Id} {xs : List Id} : x ∈ toSet xs ↔ x ∈ xs := by
       · rintro (rfl | h') <;> assumption
     · simp [toSet, h, ih]
 
-theorem toSet_nodup (xs : List Id) : (toSet xs).Nodup := by
+theorem toSet_nodup (xs : List α) : (toSet xs).Nodup := by
   induction xs with
   | nil => simp [toSet]
   | cons y ys ih =>
@@ -23,13 +25,13 @@ theorem toSet_nodup (xs : List Id) : (toSet xs).Nodup := by
     · simp only [toSet, h, if_false, List.nodup_cons]
       exact ⟨fun hm => h (mem_toSet.mp hm), ih⟩
 
-theorem toSet_length_le (xs : List Id) : (toSet xs).length ≤ xs.length := by
+theorem toSet_length_le (xs : List α) : (toSet xs).length ≤ xs.length := by
   induction xs with
   | nil => simp [toSet]
   | cons y ys ih => by_cases h : y ∈ ys <;> simp [toSet, h] <;> omega
 
 /-- `len(xs) == len(set(xs))` says exactly that `xs` has no repeated element -/
-theorem toSet_length_eq_iff (xs : List Id) : (toSet xs).length = xs.length ↔ xs.Nodup := by
+theorem toSet_length_eq_iff (xs : List α) : (toSet xs).length = xs.length ↔ xs.Nodup := by
   induction xs with
   | nil => simp [toSet]
   | cons y ys ih =>
@@ -40,20 +42,20 @@ theorem toSet_length_eq_iff (xs : List Id) : (toSet xs).length = xs.length ↔ x
     · simp only [toSet, h, if_false, List.length_cons, List.nodup_cons, not_false_eq_true, true_and]
       rw [← ih]; omega
 
-theorem toSet_eq_self {xs : List Id} (h : xs.Nodup) : toSet xs = xs := by
+theorem toSet_eq_self {xs : List α} (h : xs.Nodup) : toSet xs = xs := by
   induction xs with
   | nil => rfl
   | cons y ys ih =>
     have := List.nodup_cons.mp h
     simp [toSet, this.1, ih this.2]
 
-theorem setEq_iff {xs ys : List Id} : setEq xs ys = true ↔ ∀ x, x ∈ xs ↔ x ∈ ys := by
+theorem setEq_iff {xs ys : List α} : setEq xs ys = true ↔ ∀ x, x ∈ xs ↔ x ∈ ys := by
   simp only [setEq, Bool.and_eq_true, List.all_eq_true, decide_eq_true_eq]
   constructor
   · rintro ⟨h1, h2⟩ x; exact ⟨h1 x, h2 x⟩
   · intro h; exact ⟨fun x hx => (h x).mp hx, fun x hx => (h x).mpr hx⟩
 
-theorem nodup_of_count_le_one {xs : List Id} (h : ∀ x, xs.count x ≤ 1) : xs.Nodup := by
+theorem nodup_of_count_le_one {xs : List α} (h : ∀ x, xs.count x ≤ 1) : xs.Nodup := by
   induction xs with
   | nil => simp
   | cons y ys ih =>
@@ -72,7 +74,7 @@ theorem nodup_of_count_le_one {xs : List Id} (h : ∀ x, xs.count x ≤ 1) : xs.
 
 /-- no repeats and the same members as `ys`  ⇔  every member of `ys` occurs exactly once and
     nothing else occurs -/
-theorem exactly_once_iff {xs ys : List Id} :
+theorem exactly_once_iff {xs ys : List α} :
     (xs.Nodup ∧ ∀ x, x ∈ xs ↔ x ∈ ys) ↔ ((∀ y ∈ ys, xs.count y = 1) ∧ ∀ x ∈ xs, x ∈ ys) := by
   constructor
   · rintro ⟨hn, hm⟩
